@@ -21,9 +21,24 @@ struct Out {
     /// thorough tier only: at most this many drifting events per case and signature (event kind, observed values,
     /// prediction) are written to the trace (0 = all); the others are only counted
     drift_cap: u64,
+    /// at most this many cases that differ from the prediction (or fail to load) are written per family (front-end);
+    /// the verdict only needs some of them - a tree that deviates everywhere must not flood the trace validation
+    family_cap: u64,
+    family: std::collections::HashMap<String, u64>,
     stats: std::collections::BTreeMap<String, u64>,
 }
 impl Out {
+    /// may another deviating case of this family be written? (TLC-predicted cases only; random cases are bounded by their number)
+    fn admit(&mut self, family: &str) -> bool {
+        let n = self.family.entry(family.to_string()).or_insert(0);
+        *n += 1;
+        if self.family_cap == 0 || *n <= self.family_cap {
+            true
+        } else {
+            *self.stats.entry("deviating_cases_not_written_family_cap".to_string()).or_insert(0) += 1;
+            false
+        }
+    }
     fn bump(&mut self, k: &str, n: u64) {
         *self.stats.entry(k.to_string()).or_insert(0) += n;
     }
@@ -51,10 +66,12 @@ fn run_lib_case(o: &mut Out, fe: &str, f: &AFilter, ms: &[AMsg], pred: Option<&[
     let filter = match built {
         Ok(x) => x,
         Err(e) => {
-            o.t.ev(json!({"ev":"reset","case":case,"hdr":hdr}));
-            o.t.ev(json!({"ev":"loaderr","msg":e}));
-            o.cases_written += 1;
             o.bump("loaderr", 1);
+            if pred.is_none() || o.admit(&format!("loaderr_{}", fe)) {
+                o.t.ev(json!({"ev":"reset","case":case,"hdr":hdr}));
+                o.t.ev(json!({"ev":"loaderr","msg":e}));
+                o.cases_written += 1;
+            }
             return;
         }
     };
@@ -113,7 +130,8 @@ fn run_lib_case(o: &mut Out, fe: &str, f: &AFilter, ms: &[AMsg], pred: Option<&[
     o.bump("fast_path", n_fast);
     o.bump("drift_not_written_cap", n_capped);
     let rt_failed = again.as_ref().err().cloned();
-    if !evs.is_empty() || rt_failed.is_some() || sampled {
+    let deviating = !evs.is_empty() || rt_failed.is_some();
+    if sampled || (deviating && (pred.is_none() || o.admit(&format!("lib_{}", fe)))) {
         let mut h = hdr;
         h["json_again"] = json!(js.clone().unwrap_or_default());
         o.t.ev(json!({"ev":"reset","case":case,"hdr":h}));
@@ -227,10 +245,12 @@ fn run_eac_tasks(o: &mut Out, adlt: &str, tmp: &str, tasks: &[EacTask]) {
         let selected = match r.unwrap() {
             Ok(s) => s,
             Err(msg) => {
-                o.t.ev(json!({"ev":"reset","case":case,"hdr":hdr}));
-                o.t.ev(json!({"ev":"loaderr","msg":msg}));
-                o.cases_written += 1;
                 o.bump("loaderr", 1);
+                if t.pred.is_none() || o.admit(&format!("loaderr_binary_{}", t.mode)) {
+                    o.t.ev(json!({"ev":"reset","case":case,"hdr":hdr}));
+                    o.t.ev(json!({"ev":"loaderr","msg":msg}));
+                    o.cases_written += 1;
+                }
                 continue;
             }
         };
@@ -247,7 +267,7 @@ fn run_eac_tasks(o: &mut Out, adlt: &str, tmp: &str, tasks: &[EacTask]) {
             }
         }
         o.bump("events_observed", t.ms.len() as u64);
-        if !evs.is_empty() || t.sampled {
+        if t.sampled || (!evs.is_empty() && (t.pred.is_none() || o.admit(&format!("binary_{}", t.mode)))) {
             o.t.ev(json!({"ev":"reset","case":case,"hdr":hdr}));
             o.bump("slow_path", evs.len() as u64);
             for e in evs {
@@ -520,7 +540,7 @@ fn run_real_case(o: &mut Out, fe: &str, f: &AFilter, ms: &[&(AMsg, &RealMsg, Str
 fn main() {
     quiet_panics();
     let a = Args::from_env();
-    let mut o = Out { t: Trace::create(&a.str("--out", "trace.ndjson")), case: 0, cases_written: 0, drift_cap: a.num("--drift-cap", 0), stats: Default::default() };
+    let mut o = Out { t: Trace::create(&a.str("--out", "trace.ndjson")), case: 0, cases_written: 0, drift_cap: a.num("--drift-cap", 0), family_cap: a.num("--family-cap", 0), family: Default::default(), stats: Default::default() };
     let mut rng = Rng::new(a.num("--seed", 1));
     let adlt = a.get("--adlt").map(|s| s.to_string());
     let tmp = a.str("--tmp", ".");
